@@ -117,10 +117,32 @@ def _sections(tree, cls):
     raise TranslatorError("anchor not found: class %s" % cls)
 
 
+def _find_patterns(topo):
+    """The wildcard pattern table: the local `patterns` of match_dihedral_interaction_types; if the table has
+    been moved (module constant, other name) the unique assignment anywhere in topology.py whose value is a
+    list of at least four 4-tuples of non-negative ints / 'X' is taken instead."""
+    try:
+        return _patterns(local_assign(find_func(topo, "match_dihedral_interaction_types"), "patterns"))
+    except TranslatorError:
+        found = []
+        for node in ast.walk(topo):
+            if isinstance(node, ast.Assign):
+                try:
+                    rows = _patterns(node.value)
+                except TranslatorError:
+                    continue
+                if len(rows) >= 4 and all(len(row) == 4 for row in rows):
+                    found.append(rows)
+        if len(found) != 1:
+            raise TranslatorError("anchor not found: dihedral wildcard pattern table in topology.py "
+                                  "(%d candidate assignments)" % len(found))
+        return found[0]
+
+
 def extract():
     tab = {}
     topo = src("topology.py")
-    tab["patterns"] = _patterns(local_assign(find_func(topo, "match_dihedral_interaction_types"), "patterns"))
+    tab["patterns"] = _find_patterns(topo)
     tab["combFuncs"] = _comb_funcs(local_assign(find_func(topo, "gen_pairs", cls="Topology"), "comb_funcs"))
     parser = src("top_parser.py")
     tab["atomIdxs"] = _atom_idxs(_class_assign(parser, "TOPDirector", "atom_idxs"))
